@@ -86,6 +86,11 @@ class Program:
         self.files_read = set()
 
     # ------------------------------------------------------------------ Python side
+    def native_root(self):
+        """stand-in for /repo in native runs: current Python sources + the extension built from the current C sources"""
+        from . import extbuild
+        return extbuild.native_root(self.repo)
+
     def module(self, name):
         if name in self.modules:
             return self.modules[name]
